@@ -186,3 +186,133 @@ def run_copy(ctx, verdict, pid):
                                      outcome_distribution=errs, kinds=vlib.summarize_dist([c['kind'] for c in cases]),
                                      reads_per_case=vlib.summarize_dist([len(c['reads']) for c in cases]))
     return broken
+
+
+# ---------------------------------------------------------------------------------------------------------
+# part 2: the uplink of client.RouteTCP
+FIXED_UP = [
+    [(b'', 'e')],                                       # nothing ever arrives: no stream, local connection closed
+    [(b'', 'o')],
+    [(b'', 'n'), (b'', 'n'), (b'hello', 'n'), (b'', 'e')],
+    [(b'hello', 'e')],                                  # first packet together with EOF
+    [(b'a', 'n'), (b'bc', 'n'), (b'def', 'n'), (b'', 'e')],
+    [(b'a', 'n'), (b'bc', 'n'), (b'def', 'e')],          # Stream.ReadFrom drops bytes that come with an error (model: same)
+    [(b'a', 'n'), (b'', 'n'), (b'zz', 'n'), (b'', 'e')],  # a zero-byte read ends ReadFrom (model: same)
+]
+
+
+def uplink_cases(ctx):
+    rng = ctx.rng
+    cases = []
+    for i, reads in enumerate(FIXED_UP):
+        cases.append(dict(id='uf%d' % i, reads=reads))
+    n = 60 if ctx.quick() else 1500
+    for i in range(n):
+        reads = []
+        for _ in range(rng.choice([0, 0, 1, 2])):
+            reads.append((b'', 'n'))
+        k = rng.choice([1, 1, 2, 3, 5, 9, 20])
+        for j in range(k):
+            sz = rng.choice([1, 1, 2, 10, 100, 1000, 5000, 10239, 10240, 10241, 16000, 16381, 16382, 30000]) if rng.random() < 0.8 else rng.randrange(1, 40000)
+            reads.append((_bytes(rng, sz, rng.randrange(256)), 'n'))
+        r = rng.random()
+        if r < 0.7:
+            reads.append((b'', rng.choice(['e', 'e', 'o'])))
+        elif r < 0.85:
+            reads.append((_bytes(rng, rng.choice([1, 50, 900]), 7), rng.choice(['e', 'o'])))
+        elif r < 0.93:
+            reads.insert(rng.randrange(len(reads)), (b'', 'n'))
+            reads.append((b'', 'e'))
+        # else: the script simply ends (the fake then reports EOF)
+        cases.append(dict(id='u%d' % i, reads=reads))
+    for c in cases:
+        c['line'] = '%s U %s' % (c['id'], ','.join('%s:%s' % (_hex(d), e) for d, e in c['reads']))
+    return cases
+
+
+def _kv(rest):
+    return dict(x.split('=', 1) for x in rest.split())
+
+
+def run_uplink(ctx, verdict, pid):
+    broken = []
+    cases = uplink_cases(ctx)
+    inp = '%s/relay_up.in' % ctx.work
+    open(inp, 'w').write('\n'.join(c['line'] for c in cases) + '\n')
+    gout, mout = inp[:-3] + '.go.out', inp[:-3] + '.model.out'
+    rc, log, dt = vlib.go_test(ctx, 'client', 'TestVerifRelayUplink', files=['relay_uplink_test.go'], env=dict(VERIF_IN=inp, VERIF_OUT=gout), timeout=900)
+    got = vlib.read_lines_by_id(gout)
+    if rc != 0 or len(got) < len(cases):
+        broken.append(('Go driver TestVerifRelayUplink failed rc=%d (%d of %d cases answered)' % (rc, len(got), len(cases)), log[-3000:]))
+    mrc, merr = vlib.run_model('relay', inp, mout)
+    mod = vlib.read_lines_by_id(mout)
+    if mrc != 0:
+        broken.append(('relay model failed rc=%d' % mrc, merr[-2000:]))
+    # load-sensitive judgement (a stream that appeared only after the driver's patience): re-run those cases alone
+    late = [c for c in cases if c['id'] in got and _kv(got[c['id']]).get('late') == '1']
+    if late:
+        inp2 = inp + '.late'
+        open(inp2, 'w').write('\n'.join(c['line'] for c in late) + '\n')
+        rc2, log2, _ = vlib.go_test(ctx, 'client', 'TestVerifRelayUplink', files=['relay_uplink_test.go'], env=dict(VERIF_IN=inp2, VERIF_OUT=gout + '.late'), timeout=900)
+        got.update(vlib.read_lines_by_id(gout + '.late'))
+    mism, fails, total = [], 0, 0
+    for c in cases:
+        g = got.get(c['id'])
+        if g is None:
+            continue
+        o = _kv(g)
+        if o.get('late') == '1':
+            continue
+        up = bytes.fromhex(o['up']) if o['up'] != '-' else b''
+        total += len(up)
+        src = b''.join(d for d, _ in c['reads'])
+        why = None
+        if o['wedged'] == '1' or o['closed'] != '1':
+            why = 'the relay never closed the local connection although its reads had ended'
+        elif not src.startswith(up):
+            i = next((k for k in range(min(len(up), len(src))) if up[k] != src[k]), min(len(up), len(src)))
+            why = 'the far end of the stream read bytes that are not a prefix of what the local connection delivered (%d bytes read, %d delivered, first difference at offset %d)' % (len(up), len(src), i)
+        elif all(e == 'n' for _, e in c['reads'][:-1]) and c['reads'] and c['reads'][-1][0] == b'' and all(d for d, _ in c['reads'][next((k for k, (d, _) in enumerate(c['reads']) if d), 0):-1]) and up != src:
+            # every read but the last succeeded with data (after leading empty ones), the last one only reports the end
+            why = 'bytes lost: the local connection delivered %d bytes before its end, the far end read %d' % (len(src), len(up))
+        elif o['accepted'] == '1' and o['ended'] != '1':
+            why = 'the stream was not closed towards the far end after the local connection had ended'
+        if why:
+            fails += 1
+            if fails <= 2:
+                verdict.oracle_failure('uplink:' + why.split('(')[0].strip()[:60], '%s oracle (client.RouteTCP fed by a scripted local connection, case %s): %s' % (pid, c['id'], why),
+                                       dict(kind='relay-uplink', case=c['line'][:6000], observed=g[:6000], how='go test -run TestVerifRelayUplink with harness/client/relay_uplink_test.go'))
+        m = mod.get(c['id'])
+        if m is not None:
+            acts = m.split()
+            mup = b''.join(bytes.fromhex(a[2:]) for a in acts if a.startswith('W:') and a[2:] != '-')
+            want = dict(up=mup, accepted='1' if any(a.startswith('W:') for a in acts) else '0', ended='1' if 'CS' in acts else '0', closed='1' if 'CL' in acts else '0')
+            have = dict(up=up, accepted=o['accepted'], ended=o['ended'], closed=o['closed'])
+            if want != have and len(mism) < 3:
+                mism.append(dict(case=c['line'][:800], differs=[k for k in want if want[k] != have[k]],
+                                 model={k: (v.hex()[:80] if isinstance(v, bytes) else v) for k, v in want.items()},
+                                 impl={k: (v.hex()[:80] if isinstance(v, bytes) else v) for k, v in have.items()}))
+    if mism:
+        broken.append(('model != implementation on the uplink of client.RouteTCP (%s)' % mism[0]['case'][:160], json.dumps(mism, indent=1)))
+    verdict.cov['relay_uplink'] = dict(cases=len(cases), answered=len(got), bytes_through=total, oracle_failures=fails, rerun_alone=len(late),
+                                       reads_per_case=vlib.summarize_dist([len(c['reads']) for c in cases]))
+    return broken
+
+
+def run(ctx, verdict, pid):
+    return run_copy(ctx, verdict, pid) + run_uplink(ctx, verdict, pid)
+
+
+def replay(ctx, verdict, pid):
+    r = ctx.replay
+    kind = r.get('kind')
+    inp = '%s/relay_replay.in' % ctx.work
+    open(inp, 'w').write(r['case'] + '\n')
+    out = inp + '.out'
+    if kind == 'relay-copy':
+        rc, log, _ = vlib.go_test(ctx, 'common', 'TestVerifRelayCopy', files=['relay_copy_test.go'], env=dict(VERIF_IN=inp, VERIF_OUT=out), timeout=600)
+    else:
+        rc, log, _ = vlib.go_test(ctx, 'client', 'TestVerifRelayUplink', files=['relay_uplink_test.go'], env=dict(VERIF_IN=inp, VERIF_OUT=out), timeout=600)
+    print(open(out).read() if os.path.exists(out) else log[-2000:])
+    print('recorded when the violation was reported:', r.get('observed', '')[:2000])
+    return 0 if rc == 0 else 1
